@@ -268,7 +268,7 @@ func runC13(c *Ctx) {
 	}
 	// elements
 	mk := func(y, mo, d, h, mi, s, us int, tz string) time.Time { return timeDate(y, mo, d, h, mi, s, us, tz) }
-	for _, tz := range []string{"UTC", "+05:30", "-11:00"} {
+	for _, tz := range []string{"UTC", "+05:30", "-11:00", "+14:00", "-12:00", "+12:45", "Z", "+00:00", "-00:30"} {
 		t := mk(2020, 3, 9, 10, 30, 59, 123456, tz)
 		for _, p := range []dtpb.DateTime_Precision{dtpb.DateTime_YEAR, dtpb.DateTime_MONTH, dtpb.DateTime_DAY, dtpb.DateTime_SECOND, dtpb.DateTime_MILLISECOND, dtpb.DateTime_MICROSECOND} {
 			e := fhir.DateTime(t)
